@@ -204,6 +204,13 @@ class EnforceGen:
                 nc = min(left, rng.choice([60, 85, 120, 200]))
                 g["nwc"].append(dict(name=rng.choice([w["name"] for w in g["nwc"]]), conds=self.conds(nc)))
                 left -= nc
+        elif kind.startswith("truncation"):
+            # more than 65536 instructions: sock_fprog.len (16 bits) wraps around to a small number. Lists of 100
+            # equality conditions compile to 473 instructions each (bridges included); 139 lists give 65773.
+            nl = int(kind.split(":")[1]) if ":" in kind else 139
+            nwc = [dict(name=self.hard_names[i % len(self.hard_names)],
+                        conds=[(rng.randint(0, 5), "Eq", rng.getrandbits(64)) for _ in range(100)]) for i in range(nl)]
+            groups.append(dict(action=ERRNO, names=[], nwc=nwc))
         default = LOG if rng.random() < 0.12 else ALLOW
         return dict(default=default, groups=groups, arch=NATIVE, kind=kind)
 
@@ -553,16 +560,18 @@ def make_items(ctx, rng, consts, arches, npol, nev):
     kinds = list(EnforceGen.KINDS)
     for i in range(npol):
         kind = "oversize" if i == 7 else rng.choice(kinds)
+        if ctx.tier != "quick" and i in (11, 12):
+            kind = "truncation:%d" % (139 if i == 11 else 140)
         pol = eg.policy(kind)
         flags = rng.choice([0, 0, 1, 1, 1, 2, 3])
         nnp = rng.random() < 0.5
         uid = 65534 if (nnp and rng.random() < 0.15) else 0
         prober = "other" if (flags & 1 and rng.random() < 0.7) else "same"
         dw = pol["default"]
-        items.append(dict(cid="k%d" % i, tokens=PolicyGen.tokens(pol), events=eg.events(pol, nev if kind != "oversize" else 4),
+        items.append(dict(cid="k%d" % i, tokens=PolicyGen.tokens(pol), events=eg.events(pol, nev if kind != "oversize" and not kind.startswith("truncation") else 4),
                           flags=flags, nnp=nnp, uid=uid, prober=prober, kind=kind, default_word=dw))
         key = "%s/flags=%d/nnp=%d%s/%s" % (kind, flags, nnp, "/nobody" if uid else "", prober)
-        dist[kind] = dist.get(kind, 0) + 1
+        dist[kind.split(":")[0]] = dist.get(kind.split(":")[0], 0) + 1
         dist["flags=%d" % flags] = dist.get("flags=%d" % flags, 0) + 1
         dist["nnp=%d" % nnp] = dist.get("nnp=%d" % nnp, 0) + 1
         dist["prober=" + prober] = dist.get("prober=" + prober, 0) + 1
